@@ -149,8 +149,10 @@ func main() {
 	maxSeconds := fs.Int("max-seconds", 900, "wall-clock budget per entry (exceeded = truncated = inconclusive)")
 	maxLen := fs.Int("max-len", 8, "default bound for symbolic allocation lengths")
 	trace := fs.Bool("trace", false, "trace calls")
+	noMergeF := fs.Bool("no-merge", false, "disable if-conversion of pure diamonds (debugging / cross-check)")
 	fs.Parse(os.Args[2:])
 	traceCalls = *trace
+	noMerge = *noMergeF
 
 	o := &output{Thorough: *thorough, Solver: *solver}
 	t0 := time.Now()
